@@ -135,6 +135,41 @@ func c03Spec(maxCost int64, internal bool, costFn bool, keys []int, depth int) *
 		MaxDepth: depth,
 		Oracle:   c03Oracle,
 	}
+	if costFn {
+		// "costs ... via Config.Cost": an item given with cost 0 is charged what the cost function
+		// says about THE VALUE THAT WAS SET (v%3+1 in this harness), plus the internal cost if on
+		spec.Oracle = func(r *SeqRun) []Viol {
+			out := c03Oracle(r)
+			given := map[int64]int64{}
+			for _, h := range r.Hist {
+				if h.K == "op" && h.Op != nil && (h.Op.K == "set" || h.Op.K == "setttl") {
+					given[h.Op.Val] = h.Op.Cost
+				}
+			}
+			var applied *vsched.Event
+			for i := range r.Events {
+				e := &r.Events[i]
+				switch e.Kind {
+				case evApplied:
+					applied = e
+				case evItemCost:
+					if applied != nil && applied.A == e.A && (applied.C == 0 || applied.C == 2) && applied.B != 0 {
+						if c, ok := given[applied.B]; ok && c == 0 {
+							want := applied.B%3 + 1
+							if internal {
+								want += int64(ristretto.VerifItemSize)
+							}
+							if e.B != want {
+								out = append(out, Viol{Key: "C03/item-cost-differs-from-config-cost", What: fmt.Sprintf("value %d of key %d was set with cost 0: Config.Cost says %d (internal cost included), the applier charged %d", applied.B, e.A, want, e.B)})
+							}
+						}
+					}
+					applied = nil
+				}
+			}
+			return out
+		}
+	}
 	spec.Alphabet = func(r *SeqRun) []Op {
 		// UpdateMaxCost(+2): relative to the current value
 		out := append([]Op(nil), alpha...)
